@@ -10,7 +10,7 @@ import json
 import os
 import random
 
-from . import core, inputs, syntax, progs
+from . import core, inputs, syntax, progs, c14
 
 
 def schedules(check, n, k):
@@ -41,7 +41,7 @@ def run(tier):
     ex = progs.expand_all(table, behs, core.seed(), ["random"])
     behs, ex = progs.drop_skipped(behs, ex)
     gen = [{"src": e["variants"][0]["src"], "ver": "7.4"} for e in ex]
-    pool_in = big + gen[:60]
+    pool_in = big + gen[:60] + [{"src": s, "ver": "7.4"} for s in c14.sample_sources(check, tier, 60)]
     # (1) gated interleavings
     confs = [(2, 3), (3, 2)] if tier == "quick" else [(2, 4), (3, 3), (2, 3), (3, 2)]
     tasks = []
